@@ -83,7 +83,9 @@ pub trait Guard<F: PrimeField, CS: PolynomialCommitmentScheme<F>>: Sized {
         J: ExactSizeIterator<Item = &'a CS::VerifierParameters>,
         CS::VerifierParameters: 'a,
     {
-        assert_eq!(guards.len(), params.len());
+        if guards.len() != params.len() {
+            return Err(Error::OpeningError);
+        }
         guards
             .into_iter()
             .zip(params)
